@@ -183,3 +183,8 @@
 (assert (forall ((r CharRecipe) (RS (Array Int Str)) (off Int) (n Int)) (! (= (successProb r RS off n)
   (exp2 (- (ite (noReq r RS off n) (* (to_real (CharRecipe_Length r)) (log2 (to_real (alphaSize r RS off n)))) (entropyReq r RS off n))
            (* (to_real (CharRecipe_Length r)) (log2 (to_real (alphaSize r RS off n))))))) :pattern ((successProb r RS off n)))))
+
+; ---- entropyWithRequired under contract (C07): entropyReq gets its definition; the trusted contract moves to the count n() ----
+(declare-fun countReq (CharRecipe (Array Int Str) Int Int) Int)   ; the exact number of strings of the recipe's length over its alphabet that meet the requirements
+;;@ axiom ENTROPYREQ-def optin trigger=entropyReq :: DEFINITION of entropyReq (statement of C07): log2 of the exact count countReq, which is a count (non-negative)
+(assert (forall ((r CharRecipe) (RS (Array Int Str)) (off Int) (n Int)) (! (and (>= (countReq r RS off n) 0) (= (entropyReq r RS off n) (log2 (to_real (countReq r RS off n))))) :pattern ((entropyReq r RS off n)))))
